@@ -51,8 +51,9 @@ func GetRequestURI(req *http.Request) string {
 func GetRequestPath(req *http.Request) string {
 	uri := GetRequestURI(req)
 
-	// Parse the URI and return only the path component
-	if parsedURL, err := url.Parse(uri); err == nil {
+	// Parse the URI as a request target (origin form: a leading "//" is part
+	// of the path, not an authority) and return only the path component
+	if parsedURL, err := url.ParseRequestURI(uri); err == nil {
 		return parsedURL.Path
 	}
 
